@@ -109,7 +109,8 @@ PROPS = {
         "computed default and the current domain/context/target, to output exactly its result, and "
         "to skip empty content; domain/context/target are set for the subtree and restored; message "
         "objects are offered to translate exactly once by the conversion routine (K2).",
-        S_I18N + [K("compiler.py::K2.__quote")] + [FRESH],
+        S_I18N + [K("compiler.py::K2.__quote"), K("k3::S-OnError-in-translate"),
+                  U('pyvc.regexlang', 'whitespace_unit', 'prelude.__re_whitespace')] + [FRESH],
         ["i18n:attributes and implicit translation (pending)", "simple_translate interpolation",
          "nested translate blocks (by induction through HoleC)"]),
     "C12": k3prop(
